@@ -273,6 +273,38 @@ def check_star_imports(repo, res, rule):
            'not stop the expansion of the following ones')
 
 
+    def dunder_all():
+        # a module that declares __all__: a source module's literal may list underscore names (and may be extended at run time,
+        # so the public names stay); a live module's list is exact
+        import ast as _ast
+        top = m.scope('SourceScope', Obj(m.cls('BaseScope'), {'names': {}}, 'builtins'))
+        top.attrs['source'] = Obj(m.cls('Source'), {'filename': '/p/main.py'}, 'source') if 'Source' in m.facts.classes else Unknown('source')
+        f = m.flow('top', top)
+        top.attrs['flow'] = f
+        from .exprend import from_ast
+        lit = from_ast(_ast.parse("['pub', '_listed']").body[0].value)
+        decl = m.new('AssignedName', '__all__', (1, 0), (1, 0), lit)
+        src_mod = Obj(m.cls('SourceModule'), {'_attrs': {'pub': 1, '_listed': 2, '_hidden': 3, 'other': 4, '__all__': decl}}, 'source module')
+        live_all = m.new('RuntimeName', '__all__', ['exact', '_also'])
+        live_mod = Obj(m.cls('ImportedModule'), {'_attrs': {'exact': 1, '_also': 2, 'helper': 3, '__all__': live_all}}, 'live module')
+
+        def get_nmodule(it, args, kwargs):
+            return src_mod if args[0] == 'src' else live_mod
+        project = Obj(m.cls('Project'), {'get_nmodule': Native('get_nmodule', get_nmodule)}, 'project')
+        top.attrs['_star_imports'] = [((1, 20), (1, 19), 'src', f), ((2, 20), (2, 19), 'live', f)]
+        m.it.call(m.it.getattr(top, 'resolve_star_imports'), [project], {})
+        got = {}
+        for n in f.attrs['_names']:
+            got.setdefault(str(n.attrs.get('module')), set()).add(str(n.attrs['name']))
+        ok = {'pub', '_listed', 'other'} <= got.get('src', set()) and '_hidden' not in got.get('src', set()) \
+            and got.get('live') == {'exact', '_also'}
+        return ok, 'from src import * (source module, __all__ = [\'pub\', \'_listed\'], also defining other and _hidden) binds %s; from live ' \
+            'import * (a live module whose __all__ is [\'exact\', \'_also\'], also holding helper) binds %s' % (
+                sorted(got.get('src', ())), sorted(got.get('live', ())))
+    _guard(dunder_all, res, rule, 'star imports honour __all__', SCOPE,
+           'an underscore name listed in __all__ is bound by the star import (it is bound at run time); a live module\'s __all__ is the '
+           'exact list of names the star import binds')
+
     def exported():
         # the exporting side: what a module offers to `from m import *` / `from m import name`
         bl = m.name('len', (0, 0))
@@ -300,6 +332,46 @@ def check_star_imports(repo, res, rule):
     _guard(exported, res, rule, 'a module exports every name it may bind at top level', SCOPE,
            'names bound on some paths only (if without else, try body, loop body) are bound at run time whenever that path is '
            'taken: they must be offered to star imports and from-imports like unconditionally bound ones')
+
+
+def check_module_level_globals(repo, res, rule):
+    """A name bound only under a `global` declaration inside a function is a module-level name: reads at module level (in the
+    first region and in regions that follow it) and in other functions see it; a module-level binding of its own shadows it."""
+    m = get_model(repo)
+
+    def scenario():
+        bl = m.name('len', (0, 0))
+        builtins = Obj(m.cls('BaseScope'), {'names': {'len': bl}}, 'builtins')
+        top = m.scope('SourceScope', builtins)
+        entry = m.flow('top', top)
+        top.attrs['flow'] = entry
+        own = m.name('own', (1, 0))
+        m.add(entry, own)
+        fs = m.scope('FuncScope', top, top)
+        ff = m.flow('func', fs)
+        fs.attrs['flow'] = ff
+        fs.attrs['globals'].update({'conf', 'own'})
+        conf = m.name('conf', (4, 4))
+        own_in_func = m.name('own', (5, 4))
+        m.add(ff, conf)
+        m.add(ff, own_in_func)
+        later = m.flow('if', top, [entry])
+        at_entry = m.describe(m.lookup(m.names_at(entry, (8, 0)), 'conf'))
+        at_later = m.describe(m.lookup(m.names_at(later, (9, 4)), 'conf'))
+        own_entry = m.describe(m.lookup(m.names_at(entry, (8, 0)), 'own'))
+        ln = m.describe(m.lookup(m.names_at(later, (9, 4)), 'len'))
+        other = m.scope('FuncScope', top, top)
+        of = m.flow('func', other)
+        other.attrs['flow'] = of
+        in_other = m.describe(m.lookup(m.names_at(of, (12, 4)), 'conf'))
+        ok = at_entry == frozenset([conf.oid]) and at_later == frozenset([conf.oid]) and in_other == frozenset([conf.oid]) \
+            and own_entry == frozenset([own.oid]) and ln == frozenset([bl.oid])
+        return ok, 'def init(): global conf, own; conf = 1; own = 2 - reads of conf at module level resolve to %s / %s (a later region), in ' \
+            'another function to %s (all must be the binding made in init, %s); own (also bound at module level) -> %s (the ' \
+            'module-level binding %s); len -> the builtin: %s' % (sorted(at_entry or []), sorted(at_later or []), sorted(in_other or []),
+                                                                  conf.oid, sorted(own_entry or []), own.oid, ln == frozenset([bl.oid]))
+    _guard(scenario, res, rule, 'a name bound under `global` in a function is visible at module level', SCOPE,
+           'names created by a function through a global declaration are module-level names: reads at module level must find them')
 
 
 def check_merged_dict(repo, res, rule):
